@@ -253,7 +253,8 @@ func (exp *expressionStream) normalizeLicense(license string) *token {
 			return token
 		}
 	}
-	if exp.hasMore() && exp.expression[exp.index:exp.index+1] == "+" {
+	if exp.hasMore() && exp.expression[exp.index:exp.index+1] == "+" && !strings.HasPrefix(exp.expression[exp.index+1:], "+") {
+		// a doubled `+` is not the shorthand for -or-later; leave both for the parser to reject
 		adjustedLicense := license[0:lenLicense] + "-or-later"
 		if token := licenseLookup(adjustedLicense); token != nil {
 			// need to consume the + to avoid a + operator token being added
